@@ -66,14 +66,20 @@ def run(tier, seed):
   from vizier._src.pythia import local_policy_supporters
 
   rep = C.Report('C12', tier, seed)
-  rep.rule = ('(A) generated worlds (trials created/activated/completed/deleted between requests, state lost with p=0.07, a dump->load '
+  rep.rule = ('the loader (guard, set expressions, status filter, dump / load / clear) is regenerated from trial_caches.py and proved equal to the model at every run; (A) generated worlds (trials created/activated/completed/deleted between requests, state lost with p=0.07, a dump->load '
               'restart before every request) served by the real IdDeduplicatingTrialLoader through a TrialFilter-based supporter; '
               '(B) real PartiallySerializableDesignerPolicy / InRamDesignerPolicy / DesignerPolicy with a recording designer over '
               'InRamPolicySupporter histories; (C) the same policies hosted in the real service (policy rebuilt per request, state in '
               'study metadata) incl. DeleteTrial; deliveries compared with the model; non-trivial = some trial completes between requests')
-  rep.trusted = ['Coq 8.16.1 kernel + vm_compute', 'harness/props/c12.py recording designer and world generator', 'proto shim / equinox stand-in']
+  rep.trusted = ['Coq 8.16.1 kernel + vm_compute', 'harness/translate/trialcache.py (Python-ast translator of IdDeduplicatingTrialLoader, fail-closed; assumes GetTrials filters by id set and status)', 'harness/props/c12.py recording designer and world generator', 'proto shim / equinox stand-in']
+  tbroke = None
+  try:
+    from harness.translate import trialcache
+    C.write_gen('Gen/TrialCacheSrc.v', trialcache.translate(C.REPO))
+  except Exception as e:  # pylint: disable=broad-except
+    tbroke = 'translator harness/translate/trialcache.py refused trial_caches.py: %r' % (e,)
   C.standard_proof_step(rep, 'C12')
-  broke = rep.proof_broken
+  broke = ((tbroke or '') + ' ' + (rep.proof_broken or '')).strip() or None
   concrete = False
   known = {f['id']: f for f in C.load_known() if f['property'] == 'C12'}
   r = C.rng(seed, 'c12')
